@@ -143,28 +143,36 @@ def step (s : St) (op impl : String) : St × StepOut :=
     let g := { g with sentInPhase := pn :: g.sentInPhase, monotoneSeal := g.monotoneSeal && decide (pn > g.lastSealed), lastSealed := pn }
     let s := (s.setA ep a2).setG ep g
     -- the sealed bytes: predicted for TLS_AES_128_GCM_SHA256 from the key-update chain, a witness otherwise
-    let s := if s.suite == 0 then s.extend ep gen.toNat else s
     let implCt := (implField impl "ct=").getD ""
-    -- expanded keys are cached per (endpoint, generation)
-    let s := if s.suite == 0 && !(s.gk.any fun k => k.ep == ep && k.gen == gen.toNat) then
-        match (s.chain ep)[gen.toNat]? with
+    -- expanded keys are cached per (endpoint, generation); the RFC comparison uses the generation the
+    -- IMPLEMENTATION reported, the model prediction the model's
+    let ensure (s : St) (g : Nat) : St :=
+      if s.suite == 0 && g ≤ 4096 && !(s.gk.any fun k => k.ep == ep && k.gen == g) then
+        let s := s.extend ep g
+        match (s.chain ep)[g]? with
         | some (codeSec, rfcSec) =>
           let ck := trafficKeys s.ver codeSec; let rk := trafficKeys s.ver rfcSec
-          { s with gk := { ep := ep, gen := gen.toNat, codeIV := ck.iv, codeRK := expandKey ck.key,
+          { s with gk := { ep := ep, gen := g, codeIV := ck.iv, codeRK := expandKey ck.key,
                            rfcIV := rk.iv, rfcRK := expandKey rk.key } :: s.gk }
         | none => s
       else s
+    let s := ensure (ensure s gen.toNat) implGen.toNat
+    let sealWith (rk : Array (List UInt8)) (iv : List UInt8) (bit : Int) : String :=
+      toHex (gcmSealWith rk (nonce iv pn.toNat) (adOf bit pn) (msgOf id))
     let (ctModel, ctFails) : String × List Fail :=
       if s.suite == 0 then
-        match s.gk.find? (fun k => k.ep == ep && k.gen == gen.toNat) with
-        | some k =>
-          let mc := toHex (gcmSealWith k.codeRK (nonce k.codeIV pn.toNat) (adOf b pn) (msgOf id))
-          let rc := if k.codeRK == k.rfcRK && k.codeIV == k.rfcIV then mc
-            else toHex (gcmSealWith k.rfcRK (nonce k.rfcIV pn.toNat) (adOf b pn) (msgOf id))
-          (mc, if implCt ≠ rc then
-            [("aead_matches_rfc", if s.ver == 2 && gen ≥ 1 && implCt == mc then "v2_ku_label" else "-",
-              s!"version {s.ver} generation {gen} pn={pn}: sealed {implCt}, RFC 9001 §6.1 / RFC 9369 §3.3.2 key chain gives {rc}")] else [])
-        | none => (implCt, [])
+        let mc := match s.gk.find? (fun k => k.ep == ep && k.gen == gen.toNat) with
+          | some k => sealWith k.codeRK k.codeIV b
+          | none => implCt
+        let ctFails : List Fail := match s.gk.find? (fun k => k.ep == ep && k.gen == implGen.toNat) with
+          | some k =>
+            let rc := sealWith k.rfcRK k.rfcIV implBit
+            let cc := sealWith k.codeRK k.codeIV implBit
+            if implCt ≠ rc then
+              [("aead_matches_rfc", if s.ver == 2 && implGen ≥ 1 && implCt == cc then "v2_ku_label" else "-",
+                s!"version {s.ver} generation {implGen} pn={pn}: sealed {implCt}, RFC 9001 §6.1 / RFC 9369 §3.3.2 key chain gives {rc}")] else []
+          | none => []
+        (mc, ctFails)
       else (implCt, [])
     let fails := fails ++ ctFails
     ({ s with mp := insert s.mp id { sender := ep, gen := gen, pn := pn, bit := b },
@@ -260,16 +268,20 @@ def step (s : St) (op impl : String) : St × StepOut :=
   | "secrets" =>
     let g := ((s.a ep).keyPhase + 1).toNat
     if !s.sha256Suite then (s, mk impl ["secrets:sha384-witness"]) else
-    let s := (s.extend 0 g).extend 1 g
-    match (s.chain ep)[g]?, (s.chain (1 - ep))[g]? with
-    | some (sc, sr), some (rc, rr) =>
-      let model := s!"gen={g} nrcv={toHex rc} nsend={toHex sc}"
-      let rfc := s!"gen={g} nrcv={toHex rr} nsend={toHex sr}"
-      let fails : List Fail := if impl ≠ rfc then
-        [("key_update_secret_rfc", if s.ver == 2 && impl == model then "v2_ku_label" else "-",
-          s!"version {s.ver}: next-generation secrets {impl}; RFC 9001 §6.1 / RFC 9369 §3.3.2 give {rfc}")] else []
-      (s, mk model ["secrets", s!"secrets:v{s.ver}"] fails)
-    | _, _ => (s, mk "<chain>" [])
+    let ig := (implInt impl "gen=" 0).toNat
+    let top := if ig ≤ 4096 then max g ig else g
+    let s := (s.extend 0 top).extend 1 top
+    let fmt (g : Nat) (code : Bool) : String :=
+      match (s.chain ep)[g]?, (s.chain (1 - ep))[g]? with
+      | some (sc, sr), some (rc, rr) => if code then s!"gen={g} nrcv={toHex rc} nsend={toHex sc}" else s!"gen={g} nrcv={toHex rr} nsend={toHex sr}"
+      | _, _ => "<chain>"
+    let model := fmt g true
+    -- judged at the generation the implementation reports
+    let rfc := fmt ig false
+    let fails : List Fail := if impl ≠ rfc then
+      [("key_update_secret_rfc", if s.ver == 2 && impl == fmt ig true then "v2_ku_label" else "-",
+        s!"version {s.ver}: next-generation secrets {impl}; RFC 9001 §6.1 / RFC 9369 §3.3.2 give {rfc}")] else []
+    (s, mk model ["secrets", s!"secrets:v{s.ver}"] fails)
   | "setic" =>
     let a := { s.a ep with invalidPacketCount := s.env.invalidPacketLimit - arg 2 }
     (s.setA ep a, { model := "ok " ++ fmtState a, tags := ["setic"] })
